@@ -38,31 +38,36 @@ EXTENDS Integers, Sequences, FiniteSets, TLC
 CONSTANTS
   IdSeq,     \* object ids in ascending byte order; an id is a sequence of 1-character strings
   NCells,    \* positions are the cells 1..NCells (0 = the object does not exist)
-  Fences,    \* sequence of records [area, dflt, detect, cmds, glob, where, wlo, whi, nofields]
+  Classes,   \* sequence of records [area, cmds, glob, where, wlo, whi, nofields]: everything of a fence but DETECT
+  Fences,    \* sequence of records [cls, dflt, detect]: a class with a DETECT clause (dflt: no clause = all five)
   Inside,    \* Inside[a][c]     : an object on cell c satisfies the spatial test of area a
   Cross,     \* Cross[a][c][d]   : the segment between the centres of cells c and d meets area a
   Touch,     \* Touch[a][c]      : the rectangle of an object on c meets the bounding rectangle of a
   TouchU,    \* TouchU[a][c][d]  : the rectangle spanned by objects on c and d meets the bounding rectangle of a
   FVals,     \* values of the field; 0 = field absent (the only zero)
+  SetVals,   \* FIELD options of a generated SET: values of FVals, -1 = no FIELD clause (the fields are kept)
+  ExCells,   \* cells for which SET .. EX followed by its expiry is generated as well
   PdelPats,  \* id patterns for PDEL
-  WithEx,    \* also generate SET .. EX followed by its expiry
   Variant,   \* "intended" or the name of a broken design (see below)
   MaxHist    \* length bound of generated behaviours
 
 Objs   == 1..Len(IdSeq)
 Cells  == 1..NCells
 FIds   == 1..Len(Fences)
-Areas  == {Fences[f].area : f \in FIds}
+KIds   == 1..Len(Classes)
+K(f)   == Fences[f].cls
+Areas  == {Classes[k].area : k \in KIds}
 Detects == {"inside", "outside", "enter", "exit", "cross"}
 Variants == {"intended", "NoFallback", "CrossAlone", "FsetEnter", "CrossFromInside", "NoUnionSearch", "NewRectOnly"}
 
 ASSUME ConfigSane ==
   /\ Variant \in Variants
-  /\ 0 \in FVals
+  /\ 0 \in FVals /\ SetVals \subseteq FVals \cup {-1} /\ ExCells \subseteq Cells
   /\ \A f \in FIds : /\ Fences[f].detect \subseteq Detects
                      /\ Fences[f].dflt => Fences[f].detect = Detects     \* no DETECT clause = all five
                      /\ Fences[f].detect # {}                           \* DETECT needs at least one name
-                     /\ Fences[f].cmds \subseteq {"set", "fset", "del", "drop"}
+                     /\ K(f) \in KIds
+  /\ \A k \in KIds : Classes[k].cmds \subseteq {"set", "fset", "del", "drop"}
 \* the geometry tables are consistent: something inside an area touches its bounding rectangle, a segment
 \* meeting the area spans a rectangle that touches it, a segment with an end point inside the area meets it
 ASSUME TablesSane ==
@@ -80,50 +85,52 @@ GlobMatch(p, s) ==
   ELSE IF Head(p) = "*" THEN GlobMatch(Tail(p), s) \/ (s # <<>> /\ GlobMatch(p, Tail(s)))
   ELSE s # <<>> /\ (Head(p) = "?" \/ Head(p) = Head(s)) /\ GlobMatch(Tail(p), Tail(s))
 
-Glob(f, o)  == GlobMatch(Fences[f].glob, IdSeq[o])           \* MATCH of the fence (default "*")
-Where(f, v) == Fences[f].where => (Fences[f].wlo <= v /\ v <= Fences[f].whi)   \* WHERE field lo hi; absent = 0
-Sp(f, c)    == c # 0 /\ Inside[Fences[f].area][c]              \* spatial test alone
-In(f, c, v) == Sp(f, c) /\ Where(f, v)                         \* "inside the fence": area and WHERE
-Seg(f, c, d) == c # 0 /\ d # 0 /\ Cross[Fences[f].area][c][d]
+\* the operators below take a class k (a fence without its DETECT clause); TLC evaluates GlobT once
+GlobT == [k \in KIds |-> [o \in Objs |-> GlobMatch(Classes[k].glob, IdSeq[o])]]
+Glob(k, o)  == GlobT[k][o]                                     \* MATCH of the fence (default "*")
+Where(k, v) == Classes[k].where => (Classes[k].wlo <= v /\ v <= Classes[k].whi)   \* WHERE field lo hi; absent = 0
+Sp(k, c)    == c # 0 /\ Inside[Classes[k].area][c]             \* spatial test alone
+In(k, c, v) == Sp(k, c) /\ Where(k, v)                         \* "inside the fence": area and WHERE
+Seg(k, c, d) == c # 0 /\ d # 0 /\ Cross[Classes[k].area][c][d]
 
 -----------------------------------------------------------------------------
 (* The statement of C05.  Previous position oc (0 = none; FSET carries no   *)
 (* previous object), previous field ov, new position nc, new field nv.      *)
-Full(f, cmd, oc, ov, nc, nv) ==
-  LET pin == In(f, oc, ov)
-      nin == In(f, nc, nv)
-  IN IF cmd = "fset" THEN (IF nin THEN <<"inside">> ELSE <<"outside">>)   \* by the current position
-     ELSE IF pin /\ nin   THEN <<"inside">>
-     ELSE IF ~pin /\ nin  THEN <<"enter", "inside">>
-     ELSE IF pin /\ ~nin  THEN <<"exit", "outside">>
-     ELSE IF ~Where(f, nv) THEN <<>>                   \* never seen by this fence and still filtered out by WHERE
-     ELSE IF ~Sp(f, oc) /\ ~Sp(f, nc) /\ Seg(f, oc, nc) THEN <<"cross", "outside">>   \* was outside, is outside, path went through
-     ELSE <<"outside">>
+Full(k, cmd, oc, ov, nc, nv) ==
+  IF cmd = "fset" THEN (IF In(k, nc, nv) THEN <<"inside">> ELSE <<"outside">>)   \* by the current position
+  ELSE IF In(k, oc, ov)
+       THEN (IF In(k, nc, nv) THEN <<"inside">> ELSE <<"exit", "outside">>)
+  ELSE IF In(k, nc, nv) THEN <<"enter", "inside">>
+  ELSE IF ~Where(k, nv) THEN <<>>                   \* never seen by this fence and still filtered out by WHERE
+  ELSE IF ~Sp(k, oc) /\ ~Sp(k, nc) /\ Seg(k, oc, nc) THEN <<"cross", "outside">>   \* was outside, is outside, path went through
+  ELSE <<"outside">>
 
-Accepts(f, cmd) == Fences[f].cmds = {} \/ cmd \in Fences[f].cmds       \* COMMANDS filter
+Accepts(k, cmd) == Classes[k].cmds = {} \/ cmd \in Classes[k].cmds       \* COMMANDS filter
 
 \* is the write seen by the fence at all: MATCH on the id, COMMANDS, NOFIELDS fences ignore FSET
-Seen(f, cmd, o) == Glob(f, o) /\ Accepts(f, cmd) /\ ~(cmd = "fset" /\ Fences[f].nofields)
+Seen(k, cmd, o) == Glob(k, o) /\ Accepts(k, cmd) /\ ~(cmd = "fset" /\ Classes[k].nofields)
 
-Documented(f, cmd, o, oc, ov, nc, nv) ==
-  IF ~Seen(f, cmd, o) THEN <<>>
-  ELSE SelectSeq(Full(f, cmd, oc, ov, nc, nv), LAMBDA d : d \in Fences[f].detect)
+\* the documented sequence of a class for a write, before DETECT
+FullSeen(k, cmd, o, oc, ov, nc, nv) == IF Seen(k, cmd, o) THEN Full(k, cmd, oc, ov, nc, nv) ELSE <<>>
+
+Detected(f, full) == SelectSeq(full, LAMBDA d : d \in Fences[f].detect)      \* DETECT keeps the named ones, in order
+Documented(f, cmd, o, oc, ov, nc, nv) == Detected(f, FullSeen(K(f), cmd, o, oc, ov, nc, nv))
 
 -----------------------------------------------------------------------------
 (* The structure of fenceMatch (fence.go).                                  *)
-CodedDetect(f, cmd, oc, ov, nc, nv) ==
-  LET sp1 == Sp(f, oc)
-      m1  == sp1 /\ Where(f, ov)
+CodedDetect(k, cmd, oc, ov, nc, nv) ==
+  LET sp1 == Sp(k, oc)
+      m1  == sp1 /\ Where(k, ov)
       nc1 == IF sp1 THEN ~m1 ELSE FALSE                 \* nocross after testing the old object
-      sp2 == Sp(f, nc)
-      m2  == sp2 /\ Where(f, nv)
+      sp2 == Sp(k, nc)
+      m2  == sp2 /\ Where(k, nv)
       nocross == IF Variant = "CrossFromInside" THEN FALSE ELSE IF sp2 THEN ~m2 ELSE nc1
   IN IF m1 /\ m2 THEN "inside"
      ELSE IF m1 THEN "exit"
      ELSE IF m2 THEN (IF cmd = "fset" /\ Variant # "FsetEnter" THEN "inside" ELSE "enter")
      ELSE IF cmd = "fset" THEN "outside"
-     ELSE IF ~Where(f, nv) THEN "none"
-     ELSE IF ~nocross /\ Seg(f, oc, nc) THEN "cross"
+     ELSE IF ~Where(k, nv) THEN "none"
+     ELSE IF ~nocross /\ Seg(k, oc, nc) THEN "cross"
      ELSE "outside"
 
 \* the loop `for { if fence.detect != nil && !fence.detect[detect] ...' : "none" = return nil
@@ -144,26 +151,25 @@ Emit2(f, d) ==
                     ELSE IF d = "cross" /\ "outside" \in det /\ Variant # "CrossAlone" THEN <<"outside">>
                     ELSE <<>>)
 
-Coded(f, cmd, o, oc, ov, nc, nv) ==
-  IF ~Glob(f, o) THEN <<>>
-  ELSE IF cmd = "fset" /\ Fences[f].nofields THEN <<>>
-  ELSE IF ~Accepts(f, cmd) THEN <<>>
-  ELSE Emit2(f, Fallback(f, CodedDetect(f, cmd, oc, ov, nc, nv)))
+\* "none" also when the write is not seen: MATCH, FSET on a NOFIELDS fence (tested first in fenceMatch), COMMANDS (last)
+CodedClass(k, cmd, o, oc, ov, nc, nv) ==
+  IF ~Glob(k, o) THEN "none"
+  ELSE IF cmd = "fset" /\ Classes[k].nofields THEN "none"
+  ELSE IF ~Accepts(k, cmd) THEN "none"
+  ELSE CodedDetect(k, cmd, oc, ov, nc, nv)
+Coded(f, cmd, o, oc, ov, nc, nv) == Emit2(f, Fallback(f, CodedClass(K(f), cmd, o, oc, ov, nc, nv)))
 
 -----------------------------------------------------------------------------
 (* Pre-selection of webhook / channel fences (aof.go getQueueCandidates).   *)
 DetectsOutside(f) == "outside" \in Fences[f].detect       \* registry hooksOut (no DETECT clause included)
 InCrossTree(f)    == ~Fences[f].dflt /\ "cross" \in Fences[f].detect   \* registry hookCross
 Candidate(f, oc, nc) ==
-  LET a == Fences[f].area
+  LET a == Classes[K(f)].area
   IN \/ DetectsOutside(f)
      \/ Variant # "NoUnionSearch" /\ oc # 0 /\ nc # 0 /\ InCrossTree(f) /\ TouchU[a][oc][nc]
      \/ Variant # "NewRectOnly" /\ oc # 0 /\ Touch[a][oc]
      \/ nc # 0 /\ Touch[a][nc]
-
-Queued(f, cmd, o, oc, ov, nc, nv) ==      \* what a webhook / channel receives
-  IF Candidate(f, oc, nc) THEN Coded(f, cmd, o, oc, ov, nc, nv) ELSE <<>>
-Live(f, cmd, o, oc, ov, nc, nv) == Coded(f, cmd, o, oc, ov, nc, nv)     \* what a live connection receives
+\* a webhook / channel receives Coded if pre-selected, else nothing; a live connection always Coded
 
 -----------------------------------------------------------------------------
 (* Deletions.  The statement requires `del' for an object that was inside   *)
@@ -172,10 +178,10 @@ Live(f, cmd, o, oc, ov, nc, nv) == Coded(f, cmd, o, oc, ov, nc, nv)     \* what 
 (* pre-selected fences and to every live connection).  MATCH and COMMANDS   *)
 (* always apply.                                                            *)
 DelNeed(f, o, c) ==
-  IF ~Glob(f, o) \/ ~Accepts(f, "del") THEN "none"
-  ELSE IF Fences[f].dflt /\ Sp(f, c) THEN "must" ELSE "may"
+  IF ~Glob(K(f), o) \/ ~Accepts(K(f), "del") THEN "none"
+  ELSE IF Fences[f].dflt /\ Sp(K(f), c) THEN "must" ELSE "may"
 DropNeed(f) ==
-  IF ~Accepts(f, "drop") THEN "none"
+  IF ~Accepts(K(f), "drop") THEN "none"
   ELSE IF Fences[f].dflt THEN "must" ELSE "may"
 
 -----------------------------------------------------------------------------
@@ -183,11 +189,15 @@ DropNeed(f) ==
 (* [d detect ("" for del/drop), c command, o object (0 for drop), cell,     *)
 (*  v field (-1: the fence has NOFIELDS), need "must" | "may"].             *)
 Item(f, d, cmd, o, c, v, need) ==
-  [d |-> d, c |-> cmd, o |-> o, cell |-> c, v |-> IF Fences[f].nofields THEN -1 ELSE v, need |-> need]
+  [d |-> d, c |-> cmd, o |-> o, cell |-> c, v |-> IF Classes[K(f)].nofields THEN -1 ELSE v, need |-> need]
 
-MoveItems(f, cmd, o, oc, ov, nc, nv, need) ==
-  LET ds == Documented(f, cmd, o, oc, ov, nc, nv)
-  IN [i \in 1..Len(ds) |-> Item(f, ds[i], cmd, o, nc, nv, need)]
+\* (operator arguments are evaluated once per call by TLC, LET definitions of an action at every occurrence:
+\*  the sequences are therefore handed down as arguments)
+ItemsOf(f, ds, cmd, o, nc, nv, need) == [i \in 1..Len(ds) |-> Item(f, ds[i], cmd, o, nc, nv, need)]
+MoveMsgs2(full, cmd, o, nc, nv, need) ==
+  [f \in FIds |-> ItemsOf(f, Detected(f, full[K(f)]), cmd, o, nc, nv, need)]
+MoveMsgs(cmd, o, oc, ov, nc, nv, need) ==
+  MoveMsgs2([k \in KIds |-> FullSeen(k, cmd, o, oc, ov, nc, nv)], cmd, o, nc, nv, need)
 
 RECURSIVE DelItems(_, _, _, _)
 DelItems(f, os, pos0, fld0) ==       \* os: ascending sequence of deleted objects
@@ -211,16 +221,15 @@ Quiet == \A o \in Objs : ~ex[o]       \* no deadline pending (a pending deadline
 Step(op, o, c, v, withex, pat, msgs) ==
   [op |-> op, o |-> o, c |-> c, v |-> v, ex |-> withex, pat |-> pat, msgs |-> msgs]
 
+NewVal(o, v) == IF v = -1 THEN fld[o] ELSE v
 \* SET key id [FIELD f v] [EX s] <geometry of cell c>;  v = -1: no FIELD clause (fields are kept)
 Set(o, c, v, withex) ==
-  LET nv == IF v = -1 THEN fld[o] ELSE v
-  IN /\ Quiet
-     /\ withex => WithEx
-     /\ pos' = [pos EXCEPT ![o] = c]
-     /\ fld' = [fld EXCEPT ![o] = nv]
-     /\ ex' = [ex EXCEPT ![o] = withex]
-     /\ hist' = Append(hist, Step("set", o, c, v, withex, <<>>,
-                  [f \in FIds |-> MoveItems(f, "set", o, pos[o], fld[o], c, nv, "must")]))
+  /\ Quiet
+  /\ withex => c \in ExCells
+  /\ pos' = [pos EXCEPT ![o] = c]
+  /\ fld' = [fld EXCEPT ![o] = NewVal(o, v)]
+  /\ ex' = [ex EXCEPT ![o] = withex]
+  /\ hist' = Append(hist, Step("set", o, c, v, withex, <<>>, MoveMsgs("set", o, pos[o], fld[o], c, NewVal(o, v), "must")))
 
 \* FSET key id f v: a change is reported by the current position; an FSET that changes nothing is not a write
 \* (the statement does not say whether it notifies: "may")
@@ -229,7 +238,7 @@ Fset(o, v) ==
   /\ fld' = [fld EXCEPT ![o] = v]
   /\ UNCHANGED <<pos, ex>>
   /\ hist' = Append(hist, Step("fset", o, pos[o], v, FALSE, <<>>,
-               [f \in FIds |-> MoveItems(f, "fset", o, 0, 0, pos[o], v, IF v = fld[o] THEN "may" ELSE "must")]))
+               MoveMsgs("fset", o, 0, 0, pos[o], v, IF v = fld[o] THEN "may" ELSE "must")))
 
 Gone(S) == /\ pos' = [o \in Objs |-> IF o \in S THEN 0 ELSE pos[o]]
            /\ fld' = [o \in Objs |-> IF o \in S THEN 0 ELSE fld[o]]
@@ -246,12 +255,11 @@ Del(o) ==
                [f \in FIds |-> IF pos[o] = 0 THEN <<>> ELSE DelItems(f, <<o>>, pos, fld)]))
 
 \* PDEL key pattern: one `del' per deleted object
+PdelSet(pat) == {o \in Objs : pos[o] # 0 /\ GlobMatch(pat, IdSeq[o])}
 Pdel(pat) ==
-  LET S == {o \in Objs : pos[o] # 0 /\ GlobMatch(pat, IdSeq[o])}
-  IN /\ Quiet
-     /\ Gone(S)
-     /\ hist' = Append(hist, Step("pdel", 0, 0, 0, FALSE, pat,
-                  [f \in FIds |-> DelItems(f, AscSeq(S), pos, fld)]))
+  /\ Quiet
+  /\ Gone(PdelSet(pat))
+  /\ hist' = Append(hist, Step("pdel", 0, 0, 0, FALSE, pat, [f \in FIds |-> DelItems(f, AscSeq(PdelSet(pat)), pos, fld)]))
 
 \* DROP key
 Drop ==
@@ -265,11 +273,10 @@ Drop ==
 Expire(o) ==
   /\ ex[o]
   /\ Gone({o})
-  /\ hist' = Append(hist, Step("expire", o, 0, 0, FALSE, <<>>,
-               [f \in FIds |-> DelItems(f, <<o>>, pos, fld)]))
+  /\ hist' = Append(hist, Step("expire", o, 0, 0, FALSE, <<>>, [f \in FIds |-> DelItems(f, <<o>>, pos, fld)]))
 
 Next == /\ Len(hist) < MaxHist
-        /\ \/ \E o \in Objs, c \in Cells, v \in FVals \cup {-1}, x \in BOOLEAN : Set(o, c, v, x)
+        /\ \/ \E o \in Objs, c \in Cells, v \in SetVals, x \in BOOLEAN : Set(o, c, v, x)
            \/ \E o \in Objs, v \in FVals : Fset(o, v)
            \/ \E o \in Objs : Del(o) \/ Expire(o)
            \/ \E p \in PdelPats : Pdel(p)
@@ -292,25 +299,27 @@ MOv == IF LastH.op = "set" THEN fld[LastH.o] ELSE 0
 MNc == pos'[LastH.o]
 MNv == fld'[LastH.o]
 Updated == LastH.op = "set" \/ fld'[LastH.o] # fld[LastH.o]
+DetectsOfItems(m) == [i \in 1..Len(m) |-> m[i].d]
 
-\* the design of fenceMatch yields exactly the documented notifications - nothing else, nothing missing (NoOther)
-NoOther ==
-  [][IsMove /\ Updated =>
-       \A f \in FIds : Coded(f, LastH.op, LastH.o, MOc, MOv, MNc, MNv) = Documented(f, LastH.op, LastH.o, MOc, MOv, MNc, MNv)]_vars
-
-\* the expected items of the step are the documented ones
+\* the expected items of a SET / FSET are the documented ones, for the object and its new position
 HistIsDocumented ==
   [][IsMove =>
-       \A f \in FIds : LET ds == Documented(f, LastH.op, LastH.o, MOc, MOv, MNc, MNv)
-                       IN /\ Len(LastH.msgs[f]) = Len(ds)
-                          /\ \A i \in 1..Len(ds) : /\ LastH.msgs[f][i].d = ds[i]
-                                                   /\ LastH.msgs[f][i].o = LastH.o
-                                                   /\ LastH.msgs[f][i].cell = MNc]_vars
+       \A f \in FIds : /\ DetectsOfItems(LastH.msgs[f]) = Documented(f, LastH.op, LastH.o, MOc, MOv, MNc, MNv)
+                       /\ \A i \in 1..Len(LastH.msgs[f]) : LastH.msgs[f][i].o = LastH.o /\ LastH.msgs[f][i].cell = MNc]_vars
 
-\* webhook, channel and live connection receive the same for SET / FSET: the pre-selection loses nothing
+\* the design of fenceMatch yields exactly the documented notifications - nothing else, nothing missing (NoOther) -
+\* and webhook, channel and live connection receive the same for SET / FSET: a fence that is not pre-selected
+\* would have sent nothing (TransportsAgree)
+NoOtherBody(cd) ==      \* cd: the detect value fenceMatch computes, per class
+  \A f \in FIds : Emit2(f, Fallback(f, cd[K(f)])) = DetectsOfItems(LastH.msgs[f])
+NoOther ==
+  [][IsMove /\ Updated =>
+       NoOtherBody([k \in KIds |-> CodedClass(k, LastH.op, LastH.o, MOc, MOv, MNc, MNv)])]_vars
+TransportsAgreeBody(cd) ==
+  \A f \in FIds : Candidate(f, MOc, MNc) \/ Emit2(f, Fallback(f, cd[K(f)])) = <<>>
 TransportsAgree ==
   [][IsMove /\ Updated =>
-       \A f \in FIds : Queued(f, LastH.op, LastH.o, MOc, MOv, MNc, MNv) = Live(f, LastH.op, LastH.o, MOc, MOv, MNc, MNv)]_vars
+       TransportsAgreeBody([k \in KIds |-> CodedClass(k, LastH.op, LastH.o, MOc, MOv, MNc, MNv)])]_vars
 
 \* a fence without DETECT clause is pre-selected for every deletion, so the required del / drop reach every transport
 DelReachesDefault ==
@@ -322,14 +331,15 @@ DelReachesDefault ==
 Shape ==
   [][\A f \in FIds :
        LET m == LastH.msgs[f]
-           ds == [i \in 1..Len(m) |-> m[i].d]
-       IN /\ \A i \in 1..Len(m) : m[i].d \in Fences[f].detect \cup {""}
-          /\ \A i \in 1..Len(m) : Accepts(f, m[i].c)
-          /\ \A i \in 1..Len(m) : m[i].o # 0 => Glob(f, m[i].o)
+           k == K(f)
+       IN /\ \A i \in 1..Len(m) : /\ m[i].d \in Fences[f].detect \cup {""}
+                                    /\ Accepts(k, m[i].c)
+                                    /\ m[i].o # 0 => Glob(k, m[i].o)
           /\ IsMove => /\ Len(m) <= 2
-                       /\ \A i \in 1..Len(m) : ds[i] = "enter" => /\ In(f, MNc, MNv) /\ ~In(f, MOc, MOv)
-                       /\ \A i \in 1..Len(m) : ds[i] = "exit"  => /\ ~In(f, MNc, MNv) /\ In(f, MOc, MOv)
-                       /\ \A i \in 1..Len(m) : ds[i] = "inside"  => In(f, MNc, MNv)
-                       /\ \A i \in 1..Len(m) : ds[i] = "outside" => ~In(f, MNc, MNv)
-                       /\ \A i \in 1..Len(m) : ds[i] = "cross" => ~Sp(f, MOc) /\ ~Sp(f, MNc) /\ Seg(f, MOc, MNc)]_vars
+                       /\ \A i \in 1..Len(m) :
+                            /\ m[i].d = "enter" => In(k, MNc, MNv) /\ ~In(k, MOc, MOv)
+                            /\ m[i].d = "exit"  => ~In(k, MNc, MNv) /\ In(k, MOc, MOv)
+                            /\ m[i].d = "inside"  => In(k, MNc, MNv)
+                            /\ m[i].d = "outside" => ~In(k, MNc, MNv)
+                            /\ m[i].d = "cross" => ~Sp(k, MOc) /\ ~Sp(k, MNc) /\ Seg(k, MOc, MNc)]_vars
 =============================================================================
